@@ -11,9 +11,10 @@ func pcall(t *rt.Thread, c *rt.GoCont) (rt.Cont, error) {
 	}
 	next := c.Next()
 	res := rt.NewTerminationWith(c, 0, true)
-	_, err = t.CallContext(rt.RuntimeContextDef{}, func() error {
+	ctx, err := t.CallContext(rt.RuntimeContextDef{}, func() error {
 		return rt.Call(t, c.Arg(0), c.Etc(), res)
 	})
+	propagateTermination(t, ctx, err)
 	if err != nil {
 		t.Push1(next, rt.BoolValue(false))
 		t.Push1(next, rt.ErrorValue(err))
@@ -39,11 +40,12 @@ func xpcall(t *rt.Thread, c *rt.GoCont) (rt.Cont, error) {
 	next := c.Next()
 	res := rt.NewTerminationWith(c, 0, true)
 
-	_, err = t.CallContext(rt.RuntimeContextDef{
+	ctx, err := t.CallContext(rt.RuntimeContextDef{
 		MessageHandler: msgHandler,
 	}, func() error {
 		return rt.Call(t, c.Arg(0), c.Etc(), res)
 	})
+	propagateTermination(t, ctx, err)
 	if err != nil {
 		t.Push1(next, rt.BoolValue(false))
 		t.Push1(next, rt.ErrorValue(err))
@@ -52,4 +54,19 @@ func xpcall(t *rt.Thread, c *rt.GoCont) (rt.Cont, error) {
 		t.Push(next, res.Etc()...)
 	}
 	return next, nil
+}
+
+// A protected call runs the function in an execution context of its own, which
+// has no limits other than what is left in the calling context.  If that
+// context is terminated (a limit was hit, or it was killed), it is really the
+// calling context that is: termination is not an error that pcall can catch,
+// so it is passed on to the calling context.
+func propagateTermination(t *rt.Thread, ctx rt.RuntimeContext, err error) {
+	if ctx != nil && ctx.Status() == rt.StatusKilled {
+		msg := "context terminated"
+		if err != nil {
+			msg = err.Error()
+		}
+		t.TerminateContext("%s", msg)
+	}
 }
